@@ -202,7 +202,7 @@ def hexbytes(r):
 
 def run(chk):
     rng = random.Random(chk.seed)
-    common.translate_for(chk, ["evaluator", "grammar"])
+    common.translate_for(chk, ["evaluator", "grammar", "textenc"])
     chk.proof = common.prove("C03")
     probe = Proc([common.build_probe()])
     model = Proc([common.build_model()])
@@ -323,6 +323,34 @@ def run(chk):
                                    "parentheses): got %s, expected %s, consumed %s of %d" % (text + follow, got, mp["ast"], rp.get("hi"), len(text)),
                                    {"text": text + follow, "canonical": ct, "impl": got, "spec": mp["ast"]})
                 break
+
+    # ---- .text in the three encodings: real assembler vs model (all strings) vs spec (printable ASCII strings)
+    dist["text_cases"] = 0
+    alphabet = [chr(c) for c in range(32, 127) if chr(c) not in '"{}']
+    exotic = ["\u00a3", "\u2191", "\u2190", "\u2501", "\u00e9", "\ufffd", "\u2592", "\u00a0", "\u2713", "\U0001F600", "\t"]
+    seen_t = set()
+    for i in range(1500 if thorough else 300):
+        ln = rng.choice([1, 1, 2, 3, 5, 8, 20])
+        if rng.random() < 0.75:
+            st = "".join(rng.choice(alphabet) for _ in range(ln))
+        else:
+            st = "".join(rng.choice(alphabet + exotic * 3) for _ in range(ln))
+        enc = rng.choice(["ascii", "petscii", "petscreen", ""])
+        if (st, enc) in seen_t:
+            continue
+        seen_t.add((st, enc))
+        dist["text_cases"] += 1
+        chk.count(1, 1)
+        prog = '.text %s "%s"\n' % (enc, st)
+        r = probe.call({"cmd": "asm", "files": {"main.asm": prog}, "merge": False, "pc": PC0})
+        got = hexbytes(r) if r.get("ok") else ("fail", r.get("panic") or r.get("errors") or r.get("parse_errors"))
+        me = model.call({"cmd": "encode_text", "text": T(st), "enc": enc or "ascii"})
+        if got != me.get("bytes"):
+            chk.tie_break("correspondence:encode_text", "model and implementation encode %r (%s) differently" % (st, enc),
+                          {"program": prog, "impl": got, "model": me.get("bytes")})
+        if me.get("spec") is not None and got != me["spec"]:
+            chk.oracle_failure(None, "`%s` emits %s, the %s encoding of that text is %s" % (prog.strip(), got, enc or "ascii", me["spec"]),
+                               {"program": prog, "impl": got, "spec": me["spec"]})
 
     # ---- data sizes, strings, defined()
     fixed = []
